@@ -753,6 +753,11 @@ pub fn replay_options(run: &'static Run, case: &J) {
 
 // ------------------------------------------------------------------------------------------------ C17
 
+thread_local! {
+    /// the `position` line sent on this driver just before the one being checked (part of the replayable case)
+    static BEFORE_LINE: std::cell::RefCell<Option<String>> = const { std::cell::RefCell::new(None) };
+}
+
 fn check_position_cmd(run: &Run, d: &mut Drv, base: &str, base_pos: &Pos, moves: &[RMove], want: &Pos, with_go: bool, n: &AtomicU64) {
     let mut line = format!("position {base}");
     if !moves.is_empty() {
@@ -762,8 +767,9 @@ fn check_position_cmd(run: &Run, d: &mut Drv, base: &str, base_pos: &Pos, moves:
             line.push_str(&m.uci());
         }
     }
-    let case = J::obj(vec![("kind", J::s("position-cmd")), ("line", J::s(line.clone()))]);
-    let vio = |kind: &str, detail: String| run.violation(kind, format!("{kind}|{line}"), case.clone(), detail);
+    let before = BEFORE_LINE.with(|b| b.borrow().clone());
+    let case = J::obj(vec![("kind", J::s("position-cmd")), ("line", J::s(line.clone())), ("before", before.clone().map(J::s).unwrap_or(J::Null))]);
+    let vio = |kind: &str, detail: String| run.violation(kind, format!("{kind}|{}{line}", before.as_ref().map(|b| format!("{b} ; ")).unwrap_or_default()), case.clone(), detail);
     n.fetch_add(1, Ordering::Relaxed);
     if let Err(e) = d.send(&line) {
         vio("position-command-failed", e);
@@ -908,6 +914,67 @@ pub fn c17(run: &Run) -> (u64, u64) {
     });
     let a = n.load(Ordering::Relaxed);
     run.family("POSITION-PATHS", &format!("every game (path) of length <= d from the start position and {} FENs (both castlings for both sides, en passant, all four promotion pieces incl. capturing promotions, with and without counters), each sent as one `position ... moves ...` line; every 97th followed by go depth 1; plus 2 placements x all 16 castling-right subsets x both sides to depth 2", fens.len() - 1), a, a, true, "");
+    // two `position` commands in one process whose roots agree in placement, side, rights and en-passant square but
+    // not in the counters (or in how the root is written): the second must not inherit anything from the first
+    let n3 = AtomicU64::new(0);
+    let cores: Vec<(&str, bool)> = vec![
+        ("rnbqkbnr/pppppppp/8/8/8/8/PPPPPPPP/RNBQKBNR w KQkq -", true),
+        ("8/5k2/8/8/8/8/4R3/4K3 w - -", false),
+        ("r3k2r/8/8/8/8/8/8/R3K2R b KQkq -", false),
+        ("rnbqkbnr/ppp1p1pp/8/3pPp2/8/8/PPPP1PPP/RNBQKBNR w KQkq f6", false),
+    ];
+    par_for(cores.len(), |ci| {
+        let (core, is_start) = cores[ci];
+        let mut variants: Vec<String> = ["", " 0 1", " 37 61", " 99 50", " 4 3", " 7"].iter().map(|c| format!("fen {core}{c}")).collect();
+        if is_start {
+            variants.push("startpos".to_string());
+        }
+        // one fixed line of three plies (middle move of the sorted legal list each time)
+        let p0 = Pos::from_fen(core).unwrap();
+        let mut line_moves: Vec<RMove> = vec![];
+        let mut cur = p0.clone();
+        for ply in 0..3 {
+            let mut l = cur.legal_moves();
+            l.sort();
+            let m = l[(l.len() / 2 + ply) % l.len()];
+            cur = cur.apply(&m);
+            line_moves.push(m);
+        }
+        let Ok(mut d) = Drv::new(1) else { return };
+        for v1 in &variants {
+            for v2 in &variants {
+                if v1 == v2 {
+                    continue;
+                }
+                for k1 in 0..=3usize {
+                    for k2 in k1..=3usize {
+                        let mut first = format!("position {v1}");
+                        if k1 > 0 {
+                            first.push_str(" moves");
+                            for m in &line_moves[..k1] {
+                                first.push(' ');
+                                first.push_str(&m.uci());
+                            }
+                        }
+                        if d.send(&first).is_err() {
+                            run.violation("position-command-failed", format!("position-command-failed|{first}"), J::obj(vec![("kind", J::s("position-cmd")), ("line", J::s(first.clone()))]), "command failed".into());
+                            return;
+                        }
+                        let base2 = if v2 == "startpos" { Pos::startpos() } else { Pos::from_fen(v2.trim_start_matches("fen ")).unwrap() };
+                        let mut want = base2.clone();
+                        for m in &line_moves[..k2] {
+                            want = want.apply(m);
+                        }
+                        BEFORE_LINE.with(|x| *x.borrow_mut() = Some(first.clone()));
+                        check_position_cmd(run, &mut d, v2, &base2, &line_moves[..k2], &want, false, &n3);
+                        BEFORE_LINE.with(|x| *x.borrow_mut() = None);
+                    }
+                }
+            }
+        }
+    });
+    let a3 = n3.load(Ordering::Relaxed);
+    run.family("POSITION-PAIRS", "4 roots x all ordered pairs of 6-7 ways of writing the root (counters omitted / 0 1 / 37 61 / 99 50 / 4 3 / halfmove only / startpos) x all prefix pairs k1 <= k2 <= 3 of one line: two `position` commands on one engine, the second judged", a3, a3, true, "");
     // long deterministic games, every prefix
     let n2 = AtomicU64::new(0);
     let policies = ["first", "last", "middle", "capture-first"];
@@ -939,7 +1006,7 @@ pub fn c17(run: &Run) -> (u64, u64) {
     let b = n2.load(Ordering::Relaxed);
     run.family("POSITION-LONG-GAMES", &format!("8 deterministic games (policies first / last / middle / capture-first x 2 starts) of up to {plies} plies, the position command sent at every prefix length"), b, b, true, "");
     run.sample(J::obj(vec![("line", J::s("position fen r3k2r/1P4P1/8/8/8/8/1p4p1/R3K2R w KQkq - 0 1 moves b7a8n b2a1q e1g1"))]));
-    (a + b, a + b)
+    (a + b + a3, a + b + a3)
 }
 
 pub fn replay_position(run: &Run, case: &J) {
@@ -962,7 +1029,13 @@ pub fn replay_position(run: &Run, case: &J) {
     }
     let mut d = Drv::new(1).unwrap();
     let n = AtomicU64::new(0);
+    if let Some(b) = case.get("before").and_then(|x| x.as_str()) {
+        println!("first: {b}");
+        let _ = d.send(b);
+        BEFORE_LINE.with(|x| *x.borrow_mut() = Some(b.to_string()));
+    }
     check_position_cmd(run, &mut d, &base, &base_pos, &mv, &cur, true, &n);
+    BEFORE_LINE.with(|x| *x.borrow_mut() = None);
     println!("engine FEN after the command: {}", d.uci.verif_game().to_fen());
     println!("rules:                        {}", cur.to_fen());
 }
